@@ -17,6 +17,12 @@ type Refine struct {
 	Fn   *ssa.Function // func: known target
 	Bind []Val         // func: closure bindings (or bound receiver for $bound wrappers)
 	Box  *Val          // interface: dynamic content
+	Alts []RefAlt      // merged value: one of several known refinements, selected by path guards
+}
+
+type RefAlt struct {
+	Guard string
+	R     *Refine
 }
 
 type Val struct {
